@@ -58,6 +58,50 @@ pub fn build(full_name: &str, level: u8) -> Option<Scenario> {
                 s.clients_at = vec![1];
                 s.timeoutable = vec![2, 3];
             }
+            if n.contains("-pvmig") {
+                // pre_vote is being switched off by a rolling restart: every node comes back
+                // from a crash with pre_vote off
+                for nd in s.nodes.iter_mut() {
+                    nd.pre_vote = true;
+                    nd.pre_vote_off_on_restart = true;
+                }
+            }
+            if n.contains("-pvmig") && n.contains("-late") {
+                // node 1 pre-campaigned with pre_vote on; node 3's grant is still in flight when
+                // node 1 restarts with pre_vote off
+                s.prefix = vec![
+                    Action::Timeout(1),
+                    Action::Settle0(1),
+                    Action::Deliver(1, 3),
+                    Action::Settle0(3),
+                    Action::Crash(1, 9),
+                    Action::Restart(1),
+                ];
+                s.timeoutable = vec![1, 2];
+                s.crashable = vec![];
+            }
+            if n.contains("-dead1") {
+                // node 1 led term 1 and is gone for good; nodes 2 and 3 still remember it
+                s.prefix = vec![Action::Timeout(1), Action::Settle, Action::Crash(1, 9)];
+                s.down_forever = vec![1];
+                s.crashable = vec![];
+                s.timeoutable = vec![2, 3];
+            }
+            if n.contains("-minx") {
+                // min_election_tick above election_tick (a valid configuration): the check-quorum
+                // lease (election_tick) ends before anybody may time out; node 3 can be ticked
+                for nd in s.nodes.iter_mut() {
+                    nd.min_election_tick = nd.election_tick + 2;
+                    nd.max_election_tick = nd.election_tick + 3;
+                }
+                s.tickable = vec![3];
+            }
+            if n.contains("-slow3") {
+                // node 3 is configured with a longer election timeout range than the others
+                let et = s.nodes[2].election_tick;
+                s.nodes[2].min_election_tick = 2 * et + 1;
+                s.nodes[2].max_election_tick = 2 * et + 2;
+            }
             // ladder
             let (mt, to, drops, dups, cuts, crashes, reorders, beats) = match l {
                 0 => (2, 2, 0, 0, 0, 1, 0, 0),
@@ -79,6 +123,9 @@ pub fn build(full_name: &str, level: u8) -> Option<Scenario> {
                 c.crashes = crashes;
                 c.reorders = reorders;
                 c.beats = beats;
+                if n.contains("-minx") {
+                    c.ticks = 5;
+                }
             });
         }
         // ------------------------------------------------------------ FIG8
@@ -139,6 +186,76 @@ pub fn build(full_name: &str, level: u8) -> Option<Scenario> {
                     Action::DropAll,
                 ];
                 s.max_term = mt + 1;
+            }
+            if name.contains("-cbv") {
+                // five voters, one entry per append. Node 1 (term 1) holds X at index 2 alone;
+                // node 5 (term 2, elected by 2,3,4) holds its own (2, term 2) alone; node 1
+                // (term 3) committed X and its no-op (3) with nodes 2 and 3; node 4 received X
+                // only and learnt commit = 2 from a heartbeat. Node 4 may now campaign: its
+                // vote request carries the commit info (2, term 1).
+                s.prefix = vec![
+                    Action::Timeout(1),
+                    Action::Settle,
+                    Action::Propose(1, 0),
+                    Action::Settle0(1),
+                    Action::DropAll,
+                    Action::Timeout(5),
+                    Action::Settle0(5),
+                    Action::Deliver(5, 1),
+                    Action::Settle0(1),
+                    Action::Deliver(5, 2),
+                    Action::Settle0(2),
+                    Action::Deliver(5, 3),
+                    Action::Settle0(3),
+                    Action::Deliver(5, 4),
+                    Action::Settle0(4),
+                    Action::Deliver(2, 5),
+                    Action::Settle0(5),
+                    Action::Deliver(3, 5),
+                    Action::Settle0(5),
+                    Action::DropAll,
+                    Action::Timeout(1),
+                    Action::Settle0(1),
+                    Action::Crash(4, 9),
+                    Action::Crash(5, 9),
+                    Action::Settle,
+                    Action::DropAll,
+                    Action::Restart(4),
+                    Action::Restart(5),
+                    Action::Tick(1),
+                    Action::Settle0(1),
+                    Action::Deliver(1, 4),
+                    Action::Settle0(4),
+                    Action::Deliver(4, 1),
+                    Action::Settle0(1),
+                    Action::Deliver(1, 4),
+                    Action::Settle0(4),
+                    Action::Deliver(4, 1),
+                    Action::Settle0(1),
+                    Action::Deliver(1, 4),
+                    Action::Settle0(4),
+                    Action::Deliver(4, 1),
+                    Action::Settle0(1),
+                    Action::Drop(1, 4),
+                    Action::Tick(1),
+                    Action::Settle0(1),
+                    Action::Deliver(1, 4),
+                    Action::Settle0(4),
+                    Action::DropAll,
+                ];
+                s.timeoutable = vec![4];
+                s.clients_at = vec![];
+                s.crashable = vec![];
+                s.max_term = 4;
+                s.max_index = 5;
+                s.caps = caps(|c| {
+                    c.timeouts = 1;
+                });
+            }
+            if name.contains("-hb") {
+                // heartbeats too: a follower can learn a commit index below the leader's
+                s.caps.beats = 1 + (l as u8) / 2;
+                s.max_term = s.max_term.max(4);
             }
             if name.contains("-gc") {
                 // group commit: node 1 in group 1, the others in group 2
@@ -508,6 +625,11 @@ pub fn build(full_name: &str, level: u8) -> Option<Scenario> {
                     Action::Settle0(1),
                 ];
             }
+            if n.contains("-grown") {
+                // the application grew follower 3's window above max_inflight_msgs (2 -> 3)
+                s.prefix.extend(vec![Action::SetCap(1, 3, 3), Action::Crash(2, 9)]);
+                s.down_forever = vec![2];
+            }
             if n.contains("-dropped") {
                 // a proposal's append to follower 3 was lost; nothing else is proposed
                 s.prefix.extend(vec![Action::Propose(1, 0), Action::Settle0(1), Action::Drop(1, 3)]);
@@ -624,6 +746,14 @@ pub fn build(full_name: &str, level: u8) -> Option<Scenario> {
                         c.props = 3;
                         c.drops = 0;
                     }
+                }
+                if n.contains("-grown") {
+                    c.props = 4;
+                    c.beats = 1;
+                    c.reorders = 0;
+                    c.dups = 0;
+                    c.drops = 0;
+                    c.lazy = 0;
                 }
                 if n.contains("-dropped") {
                     c.props = 0;
@@ -1217,6 +1347,32 @@ pub fn build(full_name: &str, level: u8) -> Option<Scenario> {
                     c.beats = l as u8;
                 });
             }
+            if n.contains("-joint1") {
+                // the leader committed (with node 2) and applied an explicit joint change that
+                // removes 2 and 3: its configuration is (1)&&(1 2 3); nodes 2 and 3 never learn
+                // the commit and may elect a leader of their own under the old configuration
+                s.cc_menu = vec![CcSpec::V2(2, vec![(1, 2), (1, 3)])];
+                s.prefix = vec![
+                    Action::Timeout(1),
+                    Action::Settle,
+                    Action::ProposeCc(1, 0),
+                    Action::Settle0(1),
+                    Action::Deliver(1, 2),
+                    Action::Settle0(2),
+                    Action::Deliver(2, 1),
+                    Action::Settle0(1),
+                    Action::DropAll,
+                ];
+                s.clients_at = vec![1];
+                s.timeoutable = vec![2];
+                s.crashable = vec![];
+                s.fault_types = vec![];
+                s.caps = caps(|c| {
+                    c.reads = 1;
+                    c.timeouts = 1;
+                    c.beats = l as u8;
+                });
+            }
             if n.contains("-rm1") {
                 // voters {1,2}; the leader 1 removed itself and keeps leading (raft-rs lets it);
                 // the only remaining voter 2 may elect itself and commit on its own
@@ -1423,6 +1579,13 @@ pub fn build(full_name: &str, level: u8) -> Option<Scenario> {
         _ => return None,
     }
     s.mem_compact = memq;
+    // "-gc": group commit in any family (node 1 in group 1, the others in group 2)
+    if name.contains("-gc") && !s.group_commit {
+        s.group_commit = true;
+        for (k, nd) in s.nodes.iter_mut().enumerate() {
+            nd.group_id = if k == 0 { 1 } else { 2 };
+        }
+    }
     // "-gpv": pre_vote on every node, whatever the family
     if name.contains("-gpv") {
         for nd in s.nodes.iter_mut() {
